@@ -711,7 +711,33 @@ class Sym:
                         self.sym_box[nm] = (0, 1)
                         self.b2i[nm] = (c[0], pa, pb)
                         return Poly.sym(nm)
-                return self.poly(t[2])
+                p_ = self.poly(t[2])
+                if p_ is None:
+                    return None
+                # an integer cast is the identity only when the operand's range fits the target type; otherwise it
+                # wraps / truncates: an opaque symbol with the target's range (agvlib.oblig adds `cast == operand`
+                # when the guards on the path bound the operand)
+                rng_ = {"u8": (0, 255), "u16": (0, 65535), "u32": (0, (1 << 32) - 1), "u64": (0, (1 << 64) - 1), "usize": (0, (1 << 64) - 1),
+                        "u128": (0, (1 << 128) - 1), "i8": (-128, 127), "i16": (-32768, 32767), "i32": (-(1 << 31), (1 << 31) - 1),
+                        "i64": (-(1 << 63), (1 << 63) - 1), "isize": (-(1 << 63), (1 << 63) - 1), "i128": (-(1 << 127), (1 << 127) - 1)}.get(t[3] if len(t) > 3 else None)
+                if rng_ is None:
+                    return p_
+                from .prover import poly_interval
+                lo_, hi_ = poly_interval(p_, {s_: self.sym_box.get(s_, (None, None)) for s_ in p_.syms()})
+                if lo_ is not None and hi_ is not None and rng_[0] <= lo_ and hi_ <= rng_[1]:
+                    return p_
+                # the operand's own type may already guarantee the fit (u16 -> usize ...)
+                oty_ = self.bin_type(t[2])
+                if oty_ is not None and oty_.get("k") == "int":
+                    olo_, ohi_ = self.int_range(oty_)
+                    if rng_[0] <= olo_ and ohi_ <= rng_[1]:
+                        return p_
+                nm = "cast<%s>(%s)" % (t[3], p_)
+                self.sym_box[nm] = rng_
+                if not hasattr(self, "casts"):
+                    self.casts = {}
+                self.casts[nm] = (p_, rng_)
+                return Poly.sym(nm)
             return None
         if k == "call":
             s = short(t[1])
@@ -1662,6 +1688,8 @@ class Sym:
                 return unref(self.an.body.locals[d["l"]]["ty"])
             return None
         if t[0] == "param":
+            if not (0 <= t[1] < len(self.an.body.locals)):
+                return getattr(self, "placeholder_ty", {}).get(t[1])      # element placeholder of agvlib.quant
             return unref(self.an.body.locals[t[1]]["ty"])
         if t[0] == "var":
             return unref(self.an.body.locals[t[1]]["ty"])
